@@ -639,6 +639,10 @@ func (i *Iter) Int() (int64, error) {
 			return 0, errors.New("corrupt input: expected float, but no more values on tape")
 		}
 		v := math.Float64frombits(i.tape.Tape[i.off])
+		if v >= 1<<63 {
+			// math.MaxInt64 rounds up to 2^63 as a float64, which does not fit.
+			return 0, errors.New("float value overflows int64")
+		}
 		if v > math.MaxInt64 {
 			return 0, errors.New("float value overflows int64")
 		}
@@ -689,6 +693,10 @@ func (i *Iter) Uint() (uint64, error) {
 			return 0, errors.New("corrupt input: expected float, but no more values on tape")
 		}
 		v := math.Float64frombits(i.tape.Tape[i.off])
+		if v >= 1<<64 {
+			// math.MaxUint64 rounds up to 2^64 as a float64, which does not fit.
+			return 0, errors.New("float value overflows uint64")
+		}
 		if v > math.MaxUint64 {
 			return 0, errors.New("float value overflows uint64")
 		}
